@@ -6,7 +6,7 @@ from ..common import Names, rat, run_impl, canon_ballots, condensed_map
 from .c04 import ref_scores
 
 PROP = "C12"
-LEAN_MODULE = "VK.Props.C12"
+LEAN_MODULE = "VK.Props.C12Scores"
 THEOREMS = [
     "VK.C12_removed_absent",
     "VK.C12_order",
@@ -19,6 +19,11 @@ THEOREMS = [
     "VK.perms_nodup",
     "VK.mem_linearise_iff",
     "VK.linearise_nodup",
+    "VK.group_points",
+    "VK.expand_points_from",
+    "VK.C12_expand_keeps_positional_scores",
+    "VK.expand_pairwise",
+    "VK.C12_expand_keeps_pairwise",
 ]
 RULE = ("cases = utility in {remove_cand on profile / ballot tuple / single ballot x condense x "
         "leave_zero_weight_ballots, add_missing_cands, expand_tied_ballot, resolve_profile_ties, "
